@@ -47,7 +47,7 @@ allvars == <<ovars, dvars>>
 IntegName(i) == "webhook/" \o ToString(i - 1)
 TheCfg == [root |-> RootOnly(GW, GI, RI), routes |-> Routes,
            integs |-> [i \in 1..Len(SR) |-> [recv |-> "r1", name |-> IntegName(i), sr |-> SR[i]]],
-           inhibit |-> INH, windows |-> Windows, wait |-> 0, maxwait |-> 0, agc |-> 0]
+           inhibit |-> INH, windows |-> Windows, wait |-> 0, maxwait |-> 0, agc |-> 0, maint |-> 0]
 NInt == Len(SR)
 AgName(i) == "ag" \o ToString(i)
 
@@ -73,7 +73,7 @@ KindAt(i, t) == IF \E w \in SeqToSet(Windows) : w.integ = IntegName(i) /\ w.from
                   ELSE "ok"
 
 Init == /\ now = 0 /\ cfg = Derive(TheCfg) /\ ver = << >> /\ sil = << >> /\ last = << >> /\ brk = << >> /\ fl = << >>
-        /\ cancd = [seen |-> {}, dead |-> << >>, deadgk |-> {}, refl |-> {}, ing |-> << >>, mby |-> << >>, lastReload |-> 0 - 1]
+        /\ cancd = [seen |-> {}, dead |-> << >>, deadgk |-> {}, refl |-> {}, ing |-> << >>, mby |-> << >>, lastReload |-> 0 - 1, gone |-> << >>, born |-> << >>]
         /\ elig = << >> /\ chk = {}
         /\ grp = << >> /\ gmap = << >> /\ nfl = << >> /\ ids = 0 /\ nposts = 0 /\ nrel = 0
 
